@@ -38,6 +38,17 @@ def standin(tier, seed):
         @classmethod
         def from_dict(cls, d): return cls()
 
+    class Always:                     # every exchange trial of the deletion-only tables is accepted
+        def evaluate(self, ctx):
+            ctx.atoms.get_potential_energy(); return True
+        def to_dict(self): return {"name": "Always"}
+        @classmethod
+        def from_dict(cls, d): return cls()
+
+    def deleting_only(composite):
+        composite.bias_towards_insert = 0.0
+        return composite
+
     def configs():
         L = np.array([0, 1, -1, 5])
         yield "atomic, single exchange", Atoms("Cu"), [("x", lambda: ExchangeMove(L.copy())), ("d", lambda: DisplacementMove(L.copy(), Ball(0.2)))], None, None
@@ -45,6 +56,10 @@ def standin(tier, seed):
         yield "atomic, default_label -1", Atoms("Cu"), [("x", lambda: ExchangeMove(L.copy())), ("d", lambda: DisplacementMove(L.copy(), Ball(0.2)))], -1, None
         yield "molecular (CO), single exchange", Atoms("CO", positions=[[0, 0, 0], [0, 0, 1.1]]), [("x", lambda: ExchangeMove(L.copy(), TranslationRotation())), ("d", lambda: DisplacementMove(L.copy(), Ball(0.2)))], None, None
         yield "same exchange move under two names and multiplied displacement", Atoms("Cu"), [("x", "shared"), ("x2", "shared"), ("dd", lambda: DisplacementMove(L.copy(), Ball(0.2)) * 2)], None, None
+        G = np.array([0, 0, 1, 1])
+        yield "displacement move that groups two exchange particles per label", Atoms("Cu"), [("xa", lambda: ExchangeMove(np.arange(4), bias_towards_insert=0.0)), ("d", lambda: DisplacementMove(G.copy(), Ball(0.2)))], None, None
+        L1, L2 = np.array([0, 1, -1, -1]), np.array([-1, -1, 0, 1])
+        yield "composite of two exchange moves that number disjoint particles independently", Atoms("Cu"), [("xa", lambda: deleting_only(ExchangeMove(L1.copy()) + ExchangeMove(L2.copy())))], None, None
         yield "exchange * 2", Atoms("Cu"), [("xx", lambda: ExchangeMove(L.copy()) * 2), ("d", lambda: DisplacementMove(L.copy(), Ball(0.2)))], None, "gc:inserted_particles_share_a_label"
         yield "molecular composite a + b", Atoms("CO", positions=[[0, 0, 0], [0, 0, 1.1]]), [("xx", lambda: ExchangeMove(L.copy(), TranslationRotation()) + ExchangeMove(L.copy(), TranslationRotation())), ("d", lambda: DisplacementMove(L.copy(), Ball(0.2)))], None, "gc:inserted_particles_share_a_label"
 
@@ -87,7 +102,7 @@ def standin(tier, seed):
                     leaves.append(m)
                     if default_label is not None:
                         m.default_label = default_label
-            crit = GrandCanonicalCriteria() if nm.startswith("x") else Never()
+            crit = Always() if nm.startswith("xa") else (GrandCanonicalCriteria() if nm.startswith("x") else Never())
             sim.add_move(mv, crit, name=nm)
         m_t = len(template)
         count = N0
@@ -108,6 +123,9 @@ def standin(tier, seed):
                 l1 = np.array(m.labels)
                 if len(l1) != len(a):
                     V.add(known_tag or f"{name}:labels_not_as_long_as_atoms", case, f"{len(l1)} labels for {len(a)} atoms"); bad = True; break
+                u = getattr(m, "unique_labels", None)
+                if u is not None and sorted(set(np.asarray(u).tolist())) != sorted(set(l1[l1 >= 0].tolist())):
+                    V.add(known_tag or f"{name}:candidate_labels_are_not_the_non_negative_labels_carried_by_atoms", case, f"unique_labels {np.asarray(u).tolist()} for labels {l1.tolist()}"); bad = True; break
                 if not np.array_equal(l1[: len(kept)], l0[kept]):
                     V.add(f"{name}:labels_detached_from_their_atoms", case, f"{l0.tolist()} -> {l1.tolist()} (kept rows {kept})"); bad = True; break
                 if appended:
@@ -134,7 +152,7 @@ def standin(tier, seed):
                 V.add(f"{name}:particle_counter", case, f"counter {sim.number_of_exchange_particles}, expected {count}"); break
             if template != t0 or any(not np.array_equal(template.arrays[k], t0.arrays[k]) for k in t0.arrays) or len(template) != len(t0):
                 V.add(f"{name}:template_modified", case, "exchange template changed"); break
-    return V.result(bound=f"7 move tables (atomic / diatomic species, default labels None / 0 / -1, shared and multiplied moves, composites) x {steps} steps")
+    return V.result(bound=f"9 move tables (atomic / diatomic species, default labels None / 0 / -1, shared and multiplied moves, composites) x {steps} steps")
 
 
 def replay(case):
